@@ -22,38 +22,63 @@ def wellformed(part, res, text, sc):
 
 
 def layout_edits(part, sess, P, text, rng):
-    """the same program after incremental white-space / comment insertions at line ends (columns beyond the line end are clamped):
-    the procedures keep their tokens, their lines move"""
+    """the same program after incremental layout-only changes: white space / comment lines inserted at line ends (columns beyond
+    the line end are clamped), and replacements of the SAME LENGTH (a blank becomes a line break, a line break becomes a blank):
+    the procedures keep their tokens - in the second case even their byte offsets - while their lines move. The ranges are asked
+    for before the first change and after every change, so an answer remembered from an earlier state shows."""
+    import re
     sig0 = reflex.significant(reflex.lex(text))
-    cur = text; changes = []
+    sig = [t for t in P.toks if t.kind != "comment"]
+    cur = text; states = []
+    eol = "\r\n" if "\r\n" in text else "\n"
     for _ in range(rng.randint(1, 3)):
         spans = lspmodel.line_spans(cur)
-        ln = rng.randrange(len(spans)); a, e = spans[ln][0], spans[ln][1]
-        col = len(cur[a:e].encode("utf-16-le")) // 2 + rng.choice([0, 0, 1, 7, 80, 100000])
-        eol = "\r\n" if "\r\n" in cur else "\n"
-        ch = {"range": {"start": {"line": ln, "character": col}, "end": {"line": ln, "character": col + rng.choice([0, 0, 3])}},
-              "text": rng.choice([" ", eol, eol + eol, "\t", " // c" + eol, eol + "  "])}
+        if rng.random() < .4:
+            # same length: one blank <-> one LF, two blanks <-> CRLF
+            T = layout.Text(cur)
+            if rng.random() < .6:
+                cands = [m.start() for m in re.finditer(" " * len(eol), cur)]
+                if not cands: continue
+                i = rng.choice(cands); new = eol
+            else:
+                cands = [m.start() for m in re.finditer(re.escape(eol), cur)]
+                if not cands: continue
+                i = rng.choice(cands); new = " " * len(eol)
+            if eol == "\n" and (cur[i - 1:i] == "\r"): continue
+            bi = len(cur[:i].encode())
+            ch = {"range": T.rng(bi, bi + len(eol)), "text": new}
+            kind = "same_length"
+        else:
+            ln = rng.randrange(len(spans)); a, e = spans[ln][0], spans[ln][1]
+            col = len(cur[a:e].encode("utf-16-le")) // 2 + rng.choice([0, 0, 1, 7, 80, 100000])
+            ch = {"range": {"start": {"line": ln, "character": col}, "end": {"line": ln, "character": col + rng.choice([0, 0, 3])}},
+                  "text": rng.choice([" ", eol, eol + eol, "\t", " // c" + eol, eol + "  "])}
+            kind = "insertion"
         nxt = lspmodel.apply_change(cur, ch)
-        if reflex.significant(reflex.lex(nxt)) != sig0: continue      # (the line ended inside a comment or literal: not a layout edit)
-        cur = nxt; changes.append(ch)
-    if not changes: return
-    sc = {"kind": "extents-after-edits", "text": text, "changes": changes}
-    lx = [x for x in reflex.lex(cur) if x[0] not in ("comment", "eof")]
-    sig = [t for t in P.toks if t.kind != "comment"]
-    if len(lx) != len(sig): return
-    at = {t.uid: x for t, x in zip(sig, lx)}
-    T = layout.Text(cur)
-    want = [(T.pos(at[p.node.parts[0].uid][2])[0], T.pos(at[p.rcurly.uid][3])[0]) for p in sorted(P.procs, key=lambda p: p.node.a)]
-    sc["expected"] = want
+        if reflex.significant(reflex.lex(nxt)) != sig0: continue      # (the place was inside a comment or literal: not a layout edit)
+        lx = [x for x in reflex.lex(nxt) if x[0] not in ("comment", "eof")]
+        if len(lx) != len(sig): continue
+        cur = nxt
+        at = {t.uid: x for t, x in zip(sig, lx)}
+        T2 = layout.Text(cur)
+        want = [(T2.pos(at[p.node.parts[0].uid][2])[0], T2.pos(at[p.rcurly.uid][3])[0]) for p in sorted(P.procs, key=lambda p: p.node.a)]
+        states.append((ch, cur, want, kind))
+    if not states: return
+    sc = {"kind": "extents-after-edits", "text": text, "changes": [], "ask_before": True}
     try:
         uri = sess.open(text, "c17e_")
-        for i, ch in enumerate(changes): sess.server().change(uri, [ch], i + 1)
-        res = sess.result("textDocument/foldingRange", {"textDocument": {"uri": uri}}); part.ev()
-        sess.close(uri)
-        if not wellformed(part, res, cur, sc): return
-        got = [(r["startLine"], r["endLine"]) for r in res]
-        if got != want: part.fail("after %d layout-only incremental change(s) the folding ranges are %r, the procedure extents in the client's text are %r" % (len(changes), got, want), sc)
+        sess.result("textDocument/foldingRange", {"textDocument": {"uri": uri}})
+        for i, (ch, cur, want, kind) in enumerate(states):
+            sc = dict(sc, changes=sc["changes"] + [ch], expected=want)
+            sess.server().change(uri, [ch], i + 1)
+            res = sess.result("textDocument/foldingRange", {"textDocument": {"uri": uri}}); part.ev()
+            if not wellformed(part, res, cur, sc): break
+            got = [(r["startLine"], r["endLine"]) for r in res]
+            if got != want:
+                part.fail("after %d layout-only incremental change(s) the folding ranges are %r, the procedure extents in the client's text are %r" % (i + 1, got, want), sc); break
+            part.cnt("layout_edit_states_" + kind)
         else: part.cnt("documents_after_layout_edits")
+        sess.close(uri)
     except (ServerDied, Timeout, FrameError) as e:
         feat.died(part, e, "foldingRange request after incremental changes", sc, sess)
 
@@ -91,6 +116,7 @@ def worker(args):
             if wellformed(part, res, text, sc): part.cnt("wellformed_hostile_documents")
         except (ServerDied, Timeout, FrameError) as e:
             feat.died(part, e, "foldingRange request on a hostile document", sc, sess)
+    feat.report(part)
     sess.kill()
     return part
 
@@ -112,7 +138,9 @@ def replay(ctx, sc):
     try:
         uri = sess.open(sc["text"], "c17r_")
         cur = sc["text"]
-        for i, ch in enumerate(sc.get("changes", [])): sess.server().change(uri, [ch], i + 1); cur = lspmodel.apply_change(cur, ch)
+        for i, ch in enumerate(sc.get("changes", [])):
+            if sc.get("ask_before"): sess.result("textDocument/foldingRange", {"textDocument": {"uri": uri}})
+            sess.server().change(uri, [ch], i + 1); cur = lspmodel.apply_change(cur, ch)
         sc = dict(sc, text=cur)
         res = sess.result("textDocument/foldingRange", {"textDocument": {"uri": uri}}); part.ev()
         if wellformed(part, res, sc["text"], sc) and "expected" in sc:
